@@ -16,11 +16,18 @@ OutVerify(i) ==
     ret  |-> B2I(pk[1] /\ VerifyEq(so[2][1], so[2][2], i.msg, pk[2])) ]
 
 SignSrc(i) == IF i.nf = 2 THEN << "seq", i.nonces >>
+              ELSE IF i.nf = 3 THEN << "rfcskip", i.key, IF "extra" \in DOMAIN i THEN i.extra ELSE << >>, i.skip >>
               ELSE << "rfc", i.key, IF "extra" \in DOMAIN i THEN i.extra ELSE << >> >>
 OutSign(i) ==
   LET a == SignGeneric(i.key, i.msg, SignSrc(i))
       base == [ ret |-> a[1], sig |-> SigBytes(a[2]), icb |-> 0 ]
   IN  IF i.rec = 1 THEN base @@ [ recid |-> a[3] ] ELSE base
+
+\* the exported nonce function called directly: secp256k1_nonce_function_rfc6979 / _default (nonce32, msg32, key32, algo16,
+\* data, attempt) returns 1 and the (attempt+1)-th output of the RFC 6979 generator; different attempts give different nonces
+OutNonceFn(i) ==
+  [ ret |-> 1, icb |-> 0,
+    nonce |-> Nonce6979(i.key, i.msg, IF "extra" \in DOMAIN i THEN i.extra ELSE << >>, IF "algo" \in DOMAIN i THEN i.algo ELSE << >>, i.attempt) ]
 
 OutNormalize(i) ==
   LET so == SigObj(i.sig)  nm == Normalize(so[2]) IN
@@ -34,6 +41,7 @@ OutRecover(i) ==
 Out(ev) == CASE ev.e = "EcdsaVerify"    -> OutVerify(ev.in)
              [] ev.e = "EcdsaSign"      -> OutSign(ev.in)
              [] ev.e = "EcdsaNormalize" -> OutNormalize(ev.in)
+             [] ev.e = "EcdsaNonceFn"   -> OutNonceFn(ev.in)
              [] ev.e = "EcdsaRecover"   -> OutRecover(ev.in)
 
 -----------------------------------------------------------------------------
@@ -63,7 +71,7 @@ NoncePool == { One, Two, FromNat(3), Sub(N, One), HalfN, Mod(FromBytesBE(Rnd32(5
 
 \* Cases are cheap descriptors; Expand(c) builds the call record (the expensive constructions --
 \* solving for messages and public keys -- happen in the Eval action, shared by TLC's workers).
-ExtraPool == << Zeros(32), Rnd32(6), Rep(255, 32) >>
+ExtraPool == << Zeros(32), Rnd32(6), Rep(255, 32), Rep(8, 32), << 128, 128 >> \o Zeros(30), Zeros(31) \o << 1 >> >>
 NonceSeqs == << << >>, << Zeros(32) >>, << Zeros(32), NBytes(Two) >>,
                 << NBytes(N), NBytes(Max256), NBytes(Sub(N, One)) >>, << NBytes(HalfN) >>, << Rnd32(7) >> >>
 SPool == { One, Two, Sub(HalfN, One), HalfN, Add(HalfN, One), Add(HalfN, Two), Sub(N, One), FromBytesBE(SubSeq(Rnd32(8), 1, 16)) }
@@ -72,8 +80,11 @@ WrapJs == 1..60
 Cases ==
        { << "sign", d, m, nf, rc >> : d \in KeyPool, m \in MsgPool, nf \in {0, 1}, rc \in {0, 1} }
   \cup { << "signx", d, m, rc, x >> : d \in SmallKeys \cup {Zero, N}, m \in {Zero, N, Max256, FromBytesBE(Rnd32(3))},
-                                      rc \in {0, 1}, x \in 1..3 }
+                                      rc \in {0, 1}, x \in 1..6 }
   \cup { << "signseq", d, m, ns >> : d \in SmallKeys \cup {Zero, Max256}, m \in {Zero, Add(N, One), FromBytesBE(Rnd32(4))}, ns \in 1..6 }
+  \cup { << "signskip", d, m, x, skip, rc >> : d \in SmallKeys, m \in {Zero, Add(N, One), FromBytesBE(Rnd32(4))}, x \in 0..1, skip \in 1..3, rc \in {0, 1} }
+  \cup { << "noncefn", d, m, x, a, att, which >> : d \in {One, FromBytesBE(Rnd32(1))}, m \in {Zero, Add(N, One), FromBytesBE(Rnd32(4))}, x \in 0..1, a \in 0..1,
+                                                   att \in 0..4, which \in 0..1 }
   \cup { << "forge", d, k, s, 0 >> : d \in SmallKeys, k \in NoncePool, s \in SPool }
   \cup { << "forge", d, k, s, mut >> : d \in SmallKeys, k \in { One, HalfN }, s \in { One, HalfN, Add(HalfN, One) }, mut \in 1..10 }
   \cup { << "forge", d, k, s, 11 >> : d \in SmallKeys, k \in NoncePool \cup { FromNat(j) : j \in 4..40 }, s \in { One, HalfN } }
@@ -161,6 +172,11 @@ Expand(c) ==
   CASE c[1] = "sign"    -> [ e |-> "EcdsaSign", in |-> [ key |-> NBytes(c[2]), msg |-> NBytes(c[3]), nf |-> c[4], rec |-> c[5] ] ]
     [] c[1] = "signx"   -> [ e |-> "EcdsaSign", in |-> [ key |-> NBytes(c[2]), msg |-> NBytes(c[3]), nf |-> 0, rec |-> c[4], extra |-> ExtraPool[c[5]] ] ]
     [] c[1] = "signseq" -> [ e |-> "EcdsaSign", in |-> [ key |-> NBytes(c[2]), msg |-> NBytes(c[3]), nf |-> 2, rec |-> 1, nonces |-> NonceSeqs[c[4]] ] ]
+    [] c[1] = "signskip" -> [ e |-> "EcdsaSign", in |-> [ key |-> NBytes(c[2]), msg |-> NBytes(c[3]), nf |-> 3, rec |-> c[6], skip |-> c[5] ]
+                                                         @@ (IF c[4] = 1 THEN [ extra |-> ExtraPool[2] ] ELSE << >>) ]
+    [] c[1] = "noncefn" -> [ e |-> "EcdsaNonceFn", in |-> [ key |-> NBytes(c[2]), msg |-> NBytes(c[3]), attempt |-> c[6], which |-> c[7] ]
+                                                         @@ (IF c[4] = 1 THEN [ extra |-> ExtraPool[2] ] ELSE << >>)
+                                                         @@ (IF c[5] = 1 THEN [ algo |-> [j \in 1..16 |-> 64 + j] ] ELSE << >>) ]
     [] c[1] = "forge"   -> ExpandForge(c[2], c[3], c[4], c[5])
     [] c[1] = "wrap"    -> ExpandWrap(c[2], c[3], c[4], c[5], c[6])
     [] c[1] = "recover" -> LET f == Forge(c[2], c[3], c[4]) IN [ e |-> "EcdsaRecover", in |-> [ sig |-> f.sig, msg |-> f.msg, recid |-> c[5] ] ]
